@@ -980,6 +980,7 @@ pub fn c01_subs() -> Vec<Box<dyn Sub>> {
             strat: Box::new(|| hcase(24)),
             body: Box::new(c01_hist_body),
             guard_death: true,
+            max_shrink: 4096,
         }),
         Box::new(Check {
             name: "builder_histories",
@@ -988,6 +989,7 @@ pub fn c01_subs() -> Vec<Box<dyn Sub>> {
             strat: Box::new(|| vec((crate::genreg::mtype(crate::genreg::id_wild()), prop::bool::weighted(0.1)), 0..20).boxed()),
             body: Box::new(c01_builder_body),
             guard_death: true,
+            max_shrink: 4096,
         }),
         Box::new(Check {
             name: "retain_generated",
@@ -1018,6 +1020,7 @@ pub fn c01_subs() -> Vec<Box<dyn Sub>> {
                 Ok(())
             }),
             guard_death: true,
+            max_shrink: 4096,
         }),
     ]
 }
@@ -1030,6 +1033,7 @@ pub fn c02_subs() -> Vec<Box<dyn Sub>> {
         strat: Box::new(|| hcase(20)),
         body: Box::new(c02_body),
         guard_death: true,
+            max_shrink: 4096,
     })]
 }
 
@@ -1041,6 +1045,7 @@ pub fn c05_subs() -> Vec<Box<dyn Sub>> {
         strat: Box::new(|| hcase(16)),
         body: Box::new(c05_body),
         guard_death: false,
+            max_shrink: 4096,
     })]
 }
 
@@ -1052,6 +1057,7 @@ pub fn c11_subs() -> Vec<Box<dyn Sub>> {
         strat: Box::new(|| hcase(16)),
         body: Box::new(c11_body),
         guard_death: false,
+            max_shrink: 4096,
     })]
 }
 
@@ -1077,5 +1083,6 @@ pub fn c16_subs() -> Vec<Box<dyn Sub>> {
         }),
         body: Box::new(c16_body),
         guard_death: false,
+            max_shrink: 4096,
     })]
 }
